@@ -1144,6 +1144,15 @@ class CallMixin:
                 lo = self.mk("ListOf", (self.snapshot(r, st),), None, site)
                 lo.extra = {"seq": P[1] if len(P) == 2 else self.mk("Zip", P[1:], None, site)}
                 return lo
+        if q == "functools.reduce" and len(P) in (2, 3) and not kw:
+            # a left fold over a sequence of known items is the chain of calls f(f(f(x0, x1), x2), ...)
+            seq = self.res(P[1], st)
+            items = self.known_items(seq) if seq.op != "Const" else None
+            if items is not None and (items or len(P) == 3):
+                acc = P[2] if len(P) == 3 else items[0]
+                for x in (items if len(P) == 3 else items[1:]):
+                    acc = self.call(P[0], [acc, x], {}, st, fr, site)
+                return acc
         if q == "builtins.enumerate" and len(P) in (1, 2) and set(kw) <= {"start"} and not (len(P) == 2 and kw):
             start = P[1] if len(P) == 2 else kw.get("start")
             start = self.res(start, st) if start is not None else None
@@ -1187,16 +1196,18 @@ class CallMixin:
                 if not rest:
                     return self.const(True, site)
                 return rest[0] if len(rest) == 1 else self.mk("BoolOp", tuple(rest), "And", site)
-        if q == "numpy.select" and len(P) in (2, 3) and set(kw) <= {"default"} and P[0].op in ("List", "Tuple") and \
-                P[1].op in ("List", "Tuple") and len(P[0].args) == len(P[1].args) and \
-                not any(a.op == "Starred" for a in P[0].args + P[1].args):
-            # select([c1, c2, ..], [v1, v2, ..], d): the first condition that holds decides - nested where
-            dflt = P[2] if len(P) == 3 else kw.get("default", self.const(0, site))
-            out = self.res(dflt, st)
-            w = self.ext("numpy.where", site)
-            for c_, v_ in reversed(list(zip(P[0].args, P[1].args))):
-                out = self.call_ext(w, [c_, v_, out], {}, st, fr, site)
-            return out
+        if q == "numpy.select" and len(P) in (2, 3) and set(kw) <= {"default"}:
+            # select([c1, c2, ..], [v1, v2, ..], d): the first condition that holds decides - nested where.  The two
+            # sequences may be anything with known items (a literal, a constant range, a reversed list, ...)
+            cs_ = self.known_items(P[0]) if P[0].op != "Const" else None
+            vs_ = self.known_items(P[1]) if P[1].op != "Const" else None
+            if cs_ is not None and vs_ is not None and len(cs_) == len(vs_) and cs_:
+                dflt = P[2] if len(P) == 3 else kw.get("default", self.const(0, site))
+                out = self.res(dflt, st)
+                w = self.ext("numpy.where", site)
+                for c_, v_ in reversed(list(zip(cs_, vs_))):
+                    out = self.call_ext(w, [c_, v_, out], {}, st, fr, site)
+                return out
         if q == "numpy.einsum" and len(P) >= 2 and not kw and P[0].op == "Const" and isinstance(P[0].attr, str):
             sub = P[0].attr.replace(" ", "")
             none, full = self.const(None, site), self.mk("Slice", (self.const(None),) * 3, None, site)
